@@ -1,21 +1,18 @@
-int lfunc_0(void){ return 12; }
+int lfunc_0(void){ return 194; }
 void *addr_lfunc_0(void){ return (void*)lfunc_0; }
 extern int lfunc_0(void); void *l1_addr_lfunc_0(void){ return (void*)lfunc_0; }
-int ldata_1[2] = { 127 };
+int ldata_1[16] = { 83 };
 const void *addr_ldata_1(void){ return ldata_1; } int read_ldata_1(void){ return ldata_1[0]; }
 extern int ldata_1[]; const void *l1_addr_ldata_1(void){ return ldata_1; } int l1_read_ldata_1(void){ return ldata_1[0]; }
-int ldata_bss_2[4];
-const void *addr_ldata_bss_2(void){ return ldata_bss_2; } int read_ldata_bss_2(void){ return ldata_bss_2[0]; }
-extern int ldata_bss_2[]; const void *l1_addr_ldata_bss_2(void){ return ldata_bss_2; } int l1_read_ldata_bss_2(void){ return ldata_bss_2[0]; }
+extern int edata_2[]; void *l1_addr_edata_2(void){ return edata_2; } int l1_read_edata_2(void){ return edata_2[0]; }
+const int ldata_ro_3[16] = { 173 };
+const void *addr_ldata_ro_3(void){ return ldata_ro_3; } int read_ldata_ro_3(void){ return ldata_ro_3[0]; }
+extern const int ldata_ro_3[]; const void *l1_addr_ldata_ro_3(void){ return ldata_ro_3; } int l1_read_ldata_ro_3(void){ return ldata_ro_3[0]; }
+extern int efunc_4(void); void *l1_addr_efunc_4(void){ return (void*)efunc_4; } int l1_call_efunc_4(void){ return efunc_4(); }
 #ifdef EIFUNC_FROM_LIB
-extern int eifunc_3(void); void *l1_addr_eifunc_3(void){ return (void*)eifunc_3; } int l1_call_eifunc_3(void){ return eifunc_3(); }
+extern int eifunc_5(void); void *l1_addr_eifunc_5(void){ return (void*)eifunc_5; } int l1_call_eifunc_5(void){ return eifunc_5(); }
 #endif
-extern int l2func_4(void); void *l1_addr_l2func_4(void){ return (void*)l2func_4; }
-extern int efunc_5(void); void *l1_addr_efunc_5(void){ return (void*)efunc_5; } int l1_call_efunc_5(void){ return efunc_5(); }
-#ifdef EIFUNC_FROM_LIB
-extern int eifunc_6(void); void *l1_addr_eifunc_6(void){ return (void*)eifunc_6; } int l1_call_eifunc_6(void){ return eifunc_6(); }
-#endif
-int lalias_sw_7 = 68; extern __typeof(lalias_sw_7) w_lalias_sw_7 __attribute__((weak, alias("lalias_sw_7")));
-void *addr_lalias_sw_7(void){ return (void*)&w_lalias_sw_7; } int read_lalias_sw_7(void){ return w_lalias_sw_7; } void write_lalias_sw_7(int v){ w_lalias_sw_7 = v; } void *waddr_lalias_sw_7(void){ return (void*)&w_lalias_sw_7; }
-int lalias_ts_8[16]; extern __typeof(lalias_ts_8) t_lalias_ts_8 __attribute__((alias("lalias_ts_8")));
-void *addr_lalias_ts_8(void){ return (void*)lalias_ts_8; } int read_lalias_ts_8(void){ return lalias_ts_8[0]; } void write_lalias_ts_8(int v){ lalias_ts_8[0] = v; } void *waddr_lalias_ts_8(void){ return (void*)lalias_ts_8; }
+int lalias_sw_6[16]; extern __typeof(lalias_sw_6) w_lalias_sw_6 __attribute__((weak, alias("lalias_sw_6")));
+void *addr_lalias_sw_6(void){ return (void*)w_lalias_sw_6; } int read_lalias_sw_6(void){ return w_lalias_sw_6[0]; } void write_lalias_sw_6(int v){ w_lalias_sw_6[0] = v; } void *waddr_lalias_sw_6(void){ return (void*)w_lalias_sw_6; }
+int lalias_ts_7 = 66; extern __typeof(lalias_ts_7) t_lalias_ts_7 __attribute__((alias("lalias_ts_7")));
+void *addr_lalias_ts_7(void){ return (void*)&lalias_ts_7; } int read_lalias_ts_7(void){ return lalias_ts_7; } void write_lalias_ts_7(int v){ lalias_ts_7 = v; } void *waddr_lalias_ts_7(void){ return (void*)&lalias_ts_7; }
